@@ -102,6 +102,18 @@ Theorem C12_wv_datetime_zulu_inline : forall Y M D h m s, Y <= 9999 -> M <= 99 -
 Proof. exact wv_datetime_Z. Qed.
 Print Assumptions C12_wv_datetime_zulu_inline.
 
+(* 'J' is no zone designator: the encoder refuses it, and the decoder never prints it (nor any octet outside 'A'..'Z');
+   zone_suffix z = "Z" for octet 0, nothing for an octet that is no designator, the letter otherwise *)
+Theorem C12_wv_datetime_zone_J_refused : forall Y M D h m s, Y <= 9999 -> M <= 99 -> D <= 99 -> h <= 99 -> m <= 99 -> s <= 99 ->
+  enc_wv_datetime (wv_render true Y M D h m s 74) = EErr T_WV_DATETIME_FORMAT.
+Proof. exact wv_datetime_zone_J_refused. Qed.
+Print Assumptions C12_wv_datetime_zone_J_refused.
+
+Theorem C12_wv_datetime_any_zone_octet : forall Y M D h m s z, wv_fields_ok Y M D h m s ->
+  dec_wv_datetime (wv_octets Y M D h m s z) = TOk (wv_render (negb (s =? 0)) Y M D h m s 0 ++ zone_suffix z).
+Proof. exact dec_wv_datetime_any_zone. Qed.
+Print Assumptions C12_wv_datetime_any_zone_octet.
+
 (* limits of the C, shown on the model (and replayed on the C by the check): outside the property's domain *)
 (* a year above 4095 is silently reduced mod 4096: 40960101T000000A and 00000101T000000A give the same octets *)
 Theorem C12_wv_datetime_year_wraps :
@@ -174,7 +186,7 @@ Example C12_ex_si : valid_dt 1999 4 30 6 40 0 /\ trunc_ok 1 6 40 0
   /\ valid_dt 0 1 1 0 0 0 /\ trunc_ok 3 0 0 0 /\ enc_datetime (render 3 0 1 1 0 0 0) = Emit [195; 4; 0; 0; 1; 1]
   /\ valid_dt 9999 12 31 23 59 59.
 Proof. unfold valid_dt, trunc_ok. repeat split; try (vm_compute; reflexivity); try discriminate. Qed.
-Example C12_ex_wv : wv_fields_ok 2001 10 19 9 50 31 /\ wv_zone_ok 65 = true /\ wv_zone_ok 74 = false /\ wv_zone_ok 90 = true
+Example C12_ex_wv : wv_fields_ok 2001 10 19 9 50 31 /\ zone_suffix 74 = [] /\ zone_suffix 0 = [90] /\ zone_suffix 66 = [66] /\ wv_zone_ok 65 = true /\ wv_zone_ok 74 = false /\ wv_zone_ok 90 = true
   /\ wv_render true 2001 10 19 9 50 31 65 = [50;48;48;49;49;48;49;57;84;48;57;53;48;51;49;65]
   /\ wv_octets 2001 10 19 9 50 31 65 = [31; 70; 166; 156; 159; 65]
   /\ enc_wv_datetime (wv_render true 2001 10 19 9 50 31 65) = Emit [195; 6; 31; 70; 166; 156; 159; 65]
